@@ -122,4 +122,39 @@ example : serverAccepts [[0x74]] [0x74] (some (honestCert 5 [0x74])) ⟨5, .ed25
     clientAccepts [[0x74]] (some 7) [0x74] (honestCert 7 [0x54]) ⟨7, .ed25519⟩ = some 7 ∧
     serverAccepts [[0x74]] [0x74] (some (honestCert 5 [0x74])) ⟨6, .ed25519⟩ = none := by decide
 
+
+/-- **The identity on a request and on a response is stamped from the connection**, after decoding, on both paths (read off the source on this run): `stampPeerId` follows `readRequest` in `do_handle`, `stampResponsePeerId` follows `readResponse` in `do_rpc`, and nothing read from the wire is consulted for it. -/
+theorem C01_rpc_path_is_translated :
+    Gen.serveStepsGen = [.readRequest, .stampPeerId, .stampOrigin, .stampRemoteAddr, .stampInbound,
+                         .raceHandlerWithStop, .writeResponse, .finishSend, .awaitStopped, .returnOk] ∧
+    Gen.callStepsGen = [.openBi, .frameSend, .frameRecv, .writeRequest, .finishSend, .readResponse,
+                        .stampResponsePeerId, .returnResponse] ∧
+    Gen.rpcPathShapeChecked = true := ⟨rfl, rfl, rfl⟩
+
+
+/-- **The symbolic verifiers are the translation of the source**: the conjunction of what the statements
+of `verify_client_cert`, `verify_server_cert` and the pinned `verify_server_cert` demand (read off
+crypto.rs on this run, in order) is exactly what `serverAccepts` / `clientAccepts` demand of a
+certificate; the three handshake-signature checks delegate to rustls with Ed25519 as the only scheme,
+client authentication is offered and mandatory, the end-entity certificate is its own trust anchor,
+and the identity is the Ed25519 key of its SubjectPublicKeyInfo (shapes recognised: `tlsShapeChecked`). -/
+theorem C01_verifiers_are_translated (names : List Name) (dialed : Name) (p : Key) (c : Cert) :
+    verifyClientCertGen names c = (certOk c && names.any (validFor c)) ∧
+    verifyServerCertGen names dialed c = (names.contains dialed && certOk c && validFor c dialed) ∧
+    verifyPinnedServerCertGen names dialed p c = (pinOk (some p) c && names.contains dialed && certOk c && validFor c dialed) ∧
+    Gen.tlsShapeChecked = true := by
+  obtain ⟨spki, spkiAlg, signer, sigAlg, ns, validNow, wf⟩ := c
+  have hc : ([TlsStep.identityOfEndEntity, .pinMustMatch, .delegateToCertVerifier].contains TlsStep.delegateToCertVerifier) = true := by decide
+  refine ⟨?_, ?_, ?_, rfl⟩
+  · simp only [verifyClientCertGen, Gen.verifyClientCertGen, List.all_cons, List.all_nil, evalTlsStep, certOk]
+    cases wf <;> cases validNow <;> cases spkiAlg <;> cases sigAlg <;> simp <;> (try (by_cases h2 : signer = spki <;> simp [h2]))
+  · simp only [verifyServerCertGen, Gen.verifyServerCertGen, List.all_cons, List.all_nil, evalTlsStep, certOk]
+    cases wf <;> cases validNow <;> cases (names.contains dialed) <;> cases spkiAlg <;> cases sigAlg <;> simp <;>
+      (try (by_cases h2 : signer = spki <;> simp [h2]))
+  · simp only [verifyPinnedServerCertGen, verifyServerCertGen, Gen.verifyPinnedServerCertGen, Gen.verifyServerCertGen,
+      List.all_cons, List.all_nil, evalTlsStep, certOk, pinOk]
+    rw [hc]
+    cases wf <;> cases validNow <;> cases (names.contains dialed) <;> cases (validFor ⟨spki, spkiAlg, signer, sigAlg, ns, _, _⟩ dialed) <;> simp <;>
+      cases spkiAlg <;> cases sigAlg <;> simp <;> (try (by_cases h1 : spki = p <;> by_cases h2 : signer = spki <;> simp [h1, h2]))
+
 end Anemo
